@@ -366,12 +366,13 @@ class C12(c05.C05):
         "argument-passed-as-read-only-view",
         "scribble-arg:ends",
         "empty-whitelist",
+        "scribble-with-live-generators",
     ]
 
     def make_config(self, rng):
         cfg = super().make_config(rng)
         cfg["restart"] = None
-        cfg["ntasks"] = 0
+        cfg["ntasks"] = rng.choice([0, 0, 1, 2])  # suspended generator traversals while the client scribbles
         cfg["cache"] = rng.choice(["off", "on", "on", "toggling"])
         cfg["p_scribble"] = rng.choice([0.1, 0.2, 0.35])
         cfg["nu"] = max(1, cfg["nu"])
@@ -545,6 +546,8 @@ class C12(c05.C05):
                 st.reads_after += 1
                 s["probe:read-after-scribble"] += 1
             return out, None
+        if k == "scribble_ret" and st.tasks:
+            s["probe:scribble-with-live-generators"] += 1
         if k != "scribble_ret" and not op.get("scribble"):
             out, v = super().execute(st, op)
             if v is not None:
@@ -634,6 +637,13 @@ class C12(c05.C05):
 
     def finish(self, st):
         st.cache_delta()
+        for ex in (st.exA, st.exB):
+            for g in list(ex.tasks.values()):
+                try:
+                    g.close()
+                except Exception:  # pylint: disable=broad-except
+                    pass
+            ex.tasks.clear()
         return self._compare_x(st, {"op": "finish"})
 
 
